@@ -1,5 +1,320 @@
 import Driver.Util
+import KavaVerif.Model.Vesting
+/-!
+  C20 driver. One self-contained case per line (TAB separated). Three commands:
+
+  c20.cal    now y m d hour months lens endDays endSecs
+             Go's `time` decomposition of the block time, `GetPeriodLength(now, months_i)` for a list of
+             months ("P" = panic) and Go's decomposition (day of month, second of day) of `now + len_i`.
+  c20.sched  now start end ov dv periods amt length => start' end' ov' dv' periods' samples
+             the unexported `addCoinsToVestingSchedule` (hook) on a stored periodic vesting account;
+             samples `t:V:V':L:L'` = the SDK account's own GetVestingCoins / LockedCoins before/after at `t`.
+  c20.send   now kind blocked modBal bal start end ov dv periods amt length =>
+               result kind' modBal' bal' start' end' ov' dv' periods' samples raw
+             `SendTimeLockedCoinsToAccount` on the real app; samples `t:V:V':L:L':S:S'` add the real bank
+             `LockedCoins` / `SpendableCoins`; raw = `modBal|bal|acctUnchanged` read from the keeper's own
+             context right after a refusal (before any rollback).
+
+  Coins are comma separated amounts over the harness denoms (index = denom); periods are
+  `len:coins|len:coins|…` or `-`.  Every handler (1) runs the model on the observed input and compares
+  (MISMATCH) and (2) evaluates the C20 predicates on the implementation's own observation (PREDFAIL).
+-/
 namespace Drv.C20
+open KV.Vest KV.Vest.Cal
+
+/-- number of denoms the harness prints -/
+def NDH : Nat := 3
+
+def coinsOf (l : List Int) : Coins := fun d => l.getD d 0
+def coins? (s : String) : Option Coins := (ints? s).map coinsOf
+def showCoins (c : Coins) : String := showInts ((List.range NDH).map c)
+def coinsEq (a b : Coins) : Bool := (List.range NDH).all fun d => a d == b d
+
+def period? (s : String) : Option Period :=
+  match s.splitOn ":" with
+  | [l, c] => match int? l, coins? c with
+    | some l, some c => some ⟨l, c⟩
+    | _, _ => none
+  | _ => none
+
+def periods? (s : String) : Option (List Period) := (strs s "|").mapM period?
+
+def showPeriods (ps : List Period) : String :=
+  if ps.isEmpty then "-" else "|".intercalate (ps.map fun p => s!"{p.length}:{showCoins p.amount}")
+
+def pva? (start endT ov dv periods : String) : Option PVA :=
+  match int? start, int? endT, coins? ov, coins? dv, periods? periods with
+  | some s, some e, some o, some d, some ps => some ⟨s, e, o, d, ps⟩
+  | _, _, _, _, _ => none
+
+def showPVA (a : PVA) : String :=
+  s!"{a.start} {a.endT} {showCoins a.ov} {showCoins a.dv} {showPeriods a.periods}"
+
+/-- decidable well-formedness of an observed account (the `WF` of the theorems, over the printed denoms) -/
+def wfTag (a : PVA) : Option String :=
+  if !(a.start < a.endT) then some "start-not-before-end"
+  else if a.periods.any (fun p => p.length ≤ 0) then some "nonpositive-length"
+  else if totalLen a.periods != a.endT - a.start then some "length-sum"
+  else if !coinsEq (totalAmt a.periods) a.ov then some "amount-sum"
+  else none
+
+structure Sample where
+  t : Int
+  v : Coins      -- GetVestingCoins before
+  v' : Coins     -- after
+  l : Coins      -- LockedCoins before
+  l' : Coins     -- after
+  s : Coins      -- SpendableCoins before (send only)
+  s' : Coins
+
+def sample? (x : String) : Option Sample :=
+  match x.splitOn ":" with
+  | [t, v, v', l, l'] =>
+    match int? t, coins? v, coins? v', coins? l, coins? l' with
+    | some t, some v, some v', some l, some l' => some ⟨t, v, v', l, l', Coins.zero, Coins.zero⟩
+    | _, _, _, _, _ => none
+  | [t, v, v', l, l', s, s'] =>
+    match int? t, coins? v, coins? v', coins? l, coins? l', coins? s, coins? s' with
+    | some t, some v, some v', some l, some l', some s, some s' => some ⟨t, v, v', l, l', s, s'⟩
+    | _, _, _, _, _, _, _ => none
+  | _ => none
+
+def samples? (s : String) : Option (List Sample) := (strs s ";").mapM sample?
+
+def firstSome {α} (l : List α) (f : α → Option String) : Option String :=
+  l.foldl (fun acc x => match acc with | some r => some r | none => f x) none
+
+def denoms : List Nat := List.range NDH
+
+/-- the unlock predicate on the implementation's own samples:
+    V'(t) = V(t) + amt·[t < now+length] for t ≥ now (schedule), the same for the bank's LockedCoins, and
+    S'(t) = S(t) + amt·[t ≥ now+length] for the spendable coins. `dvPre` classifies a failure. -/
+def unlockPred (now length : Int) (amt dvPre : Coins) (withBank : Bool) (smp : List Sample) : Option String :=
+  firstSome smp fun x =>
+    if x.t < now then none else
+    firstSome denoms fun d =>
+      let add := if x.t < now + length then amt d else 0
+      if x.v' d != x.v d + add then
+        let tag := if x.v' d < x.v d then "old-coins-released"
+          else if x.t < now + length then (if x.v' d < x.v d + add then "new-coins-early" else "too-much-locked")
+          else "new-coins-late"
+        some (predfail "C20_unlock_exact" s!"{tag} t={x.t} d={d} V={x.v d} V'={x.v' d} expected={x.v d + add}")
+      else if x.l' d != x.l d + add then
+        let tag := if dvPre d > x.v d then "overdelegated" else "locked-differs"
+        some (predfail "C20_locked_exact" s!"{tag} t={x.t} d={d} L={x.l d} L'={x.l' d} expected={x.l d + add} dv={dvPre d} V={x.v d}")
+      else if withBank && x.s' d != x.s d + (amt d - add) then
+        some (predfail "C20_held_coins_untouched" s!"spendable-differs t={x.t} d={d} S={x.s d} S'={x.s' d} expected={x.s d + (amt d - add)}")
+      else none
+
+/-- model vs implementation on the sampled SDK / bank functions -/
+def sampleCmp (pre post : Option PVA) (bal bal' : Option Coins) (smp : List Sample) : String :=
+  let vOf (a : Option PVA) (t : Int) : Coins := match a with | some a => vesting a t | none => Coins.zero
+  let lOf (a : Option PVA) (t : Int) : Coins := match a with | some a => locked a t | none => Coins.zero
+  allOk (smp.map fun x =>
+    allOk [expectEq s!"vesting-pre t={x.t}" (showCoins (vOf pre x.t)) (showCoins x.v),
+           expectEq s!"vesting-post t={x.t}" (showCoins (vOf post x.t)) (showCoins x.v'),
+           expectEq s!"locked-pre t={x.t}" (showCoins (lOf pre x.t)) (showCoins x.l),
+           expectEq s!"locked-post t={x.t}" (showCoins (lOf post x.t)) (showCoins x.l'),
+           (match bal with
+            | some b => expectEq s!"spendable-pre t={x.t}" (showCoins (spendable b (lOf pre x.t))) (showCoins x.s)
+            | none => "ok"),
+           (match bal' with
+            | some b => expectEq s!"spendable-post t={x.t}" (showCoins (spendable b (lOf post x.t))) (showCoins x.s')
+            | none => "ok")])
+
+/-- one verdict per line: a failed property predicate (a failing input on the implementation) takes
+    precedence over a model/implementation disagreement -/
+def verdict (cmp pred : String) : String := if pred != "ok" then pred else cmp
+
+/-! ### c20.sched -/
+
+def handleSched : Handler
+  | [now, start, endT, ov, dv, periods, amt, length, _, start', endT', ov', dv', periods', samples] =>
+    match int? now, pva? start endT ov dv periods, coins? amt, int? length,
+          pva? start' endT' ov' dv' periods', samples? samples with
+    | some now, some a, some amt, some length, some b, some smp =>
+      -- (1) model vs implementation
+      let m := addCoins now a amt length
+      let cmp := allOk [expectEq "account" (showPVA m) (showPVA b), sampleCmp (some a) (some b) none none smp]
+      verdict cmp <|
+      -- (2) predicates on the implementation's observation (only for the inputs the property is about)
+      if (wfTag a).isSome || length ≤ 0 || (denoms.any fun d => amt d < 0) then "ok" else
+      match wfTag b with
+      | some tag => predfail "C20_wellformed_preserved" tag
+      | none =>
+        if !coinsEq b.ov (Coins.add a.ov amt) then predfail "C20_wellformed_preserved" "original-vesting-not-plus-amt"
+        else if !coinsEq b.dv a.dv then predfail "C20_wellformed_preserved" "delegated-vesting-changed"
+        else match unlockPred now length amt a.dv false smp with
+          | some r => r
+          | none => "ok"
+    | _, _, _, _, _, _ => badInput "parse"
+  | _ => badInput "arity"
+
+/-! ### c20.send -/
+
+def acct? (kind start endT ov dv periods : String) : Option Acct :=
+  match kind with
+  | "none" => some .none
+  | "base" => some .base
+  | "continuous" => some .continuous
+  | "delayed" => some .delayed
+  | "permanent" => some .permanent
+  | "module" => some .module
+  | "other" => some .other
+  | "periodic" => (pva? start endT ov dv periods).map .periodic
+  | _ => none
+
+def kindOf : Acct → String
+  | .none => "none" | .base => "base" | .periodic _ => "periodic" | .continuous => "continuous"
+  | .delayed => "delayed" | .permanent => "permanent" | .module => "module" | .other => "other"
+
+def pvaOf : Acct → Option PVA
+  | .periodic a => some a
+  | _ => none
+
+def showAcct (k : Acct) : String :=
+  match k with
+  | .periodic a => s!"periodic {showPVA a}"
+  | k => kindOf k
+
+def handleSend : Handler
+  | [now, kind, blocked, modBal, bal, start, endT, ov, dv, periods, amt, length, _,
+     result, kind', modBal', bal', start', endT', ov', dv', periods', samples, raw] =>
+    match int? now, acct? kind start endT ov dv periods, bool? blocked, coins? modBal, coins? bal,
+          coins? amt, int? length with
+    | some now, some acct, some blocked, some modBal, some bal, some amt, some length =>
+      let w : World := ⟨modBal, bal, acct, blocked⟩
+      let res := sendTimeLocked now w amt length
+      let modelCls := match res with | .ok _ => "ok" | .err => "err" | .panic => "panic"
+      let clsCmp := expectEq "result" modelCls result
+      let sufficient := denoms.all fun d => amt d ≤ modBal d
+      match result with
+      | "ok" =>
+        match acct? kind' start' endT' ov' dv' periods', coins? modBal', coins? bal', samples? samples with
+        | some acct', some modBal', some bal', some smp =>
+          -- (1) model vs implementation
+          let cmp := match res with
+            | .ok w' => allOk [expectEq "modBal" (showCoins w'.modBal) (showCoins modBal'),
+                               expectEq "bal" (showCoins w'.bal) (showCoins bal'),
+                               expectEq "account" (showAcct w'.acct) (showAcct acct'),
+                               sampleCmp (pvaOf acct) (pvaOf acct') (some bal) (some bal') smp]
+            | _ => clsCmp
+          verdict cmp <|
+          -- (2) predicates on the implementation's observation
+          if !sufficient then predfail "C20_dispatch" "insufficient-accepted"
+          else if length != 0 && !(kind == "base" || kind == "periodic") then
+            predfail "C20_dispatch" s!"accepted-{kind}"
+          else if blocked then predfail "C20_dispatch" "accepted-blocked"
+          else if !coinsEq modBal' (Coins.sub modBal amt) then predfail "C20_dispatch" "module-debit-not-amt"
+          else if !coinsEq bal' (Coins.add bal amt) then predfail "C20_dispatch" "recipient-credit-not-amt"
+          else if length == 0 then
+            if showAcct acct' != showAcct acct then predfail "C20_dispatch" "account-changed-without-lockup"
+            else match unlockPred now 0 amt Coins.zero true smp with
+              | some r => r
+              | none => "ok"
+          else if length < 0 then "ok"
+          else
+            let preWf := match acct with | .periodic a => (wfTag a).isNone | _ => true
+            if !preWf then "ok" else
+            match acct' with
+            | .periodic b =>
+              match wfTag b with
+              | some tag => predfail "C20_wellformed_preserved" tag
+              | none =>
+                let ovPre : Coins := match acct with | .periodic a => a.ov | _ => Coins.zero
+                let dvPre : Coins := match acct with | .periodic a => a.dv | _ => Coins.zero
+                if !coinsEq b.ov (Coins.add ovPre amt) then
+                  predfail "C20_wellformed_preserved" "original-vesting-not-plus-amt"
+                else if !coinsEq b.dv dvPre then predfail "C20_wellformed_preserved" "delegated-vesting-changed"
+                else match unlockPred now length amt dvPre true smp with
+                  | some r => r
+                  | none => "ok"
+            | _ => predfail "C20_dispatch" "recipient-not-periodic-after-lockup"
+        | _, _, _, _ => badInput "post"
+      | "err" =>
+        -- refusal must move nothing, seen in the keeper's own context (no rollback involved)
+        match raw.splitOn "|" with
+        | [rm, rb, same] =>
+          match coins? rm, coins? rb with
+          | some rm, some rb =>
+            verdict clsCmp <|
+            if !coinsEq rm modBal || !coinsEq rb bal || same != "1" then
+              predfail "C20_dispatch" s!"refused-moved-funds kind={kind}"
+            else
+              let eligible := sufficient && !blocked &&
+                ((length == 0 && kind != "none") || kind == "base" || kind == "periodic")
+              if eligible then predfail "C20_dispatch" s!"refused-eligible kind={kind}" else "ok"
+          | _, _ => badInput "raw"
+        | _ => badInput "raw"
+      | "panic" => predfail "C20_dispatch" s!"panic kind={kind}"
+      | _ => badInput "result"
+    | _, _, _, _, _, _, _ => badInput "parse"
+  | _ => badInput "arity"
+
+/-! ### c20.cal -/
+
+def lenRes? (s : String) : Option LenRes :=
+  if s.trimAscii.toString == "P" then some .panic else (int? s).map .ok
+
+def showLenRes : LenRes → String
+  | .ok l => toString l
+  | .panic => "P"
+
+def zip4 : List Int → List LenRes → List Int → List Int → List (Int × LenRes × Int × Int)
+  | m :: ms, l :: ls, d :: ds, s :: ss => (m, l, d, s) :: zip4 ms ls ds ss
+  | _, _, _, _ => []
+
+/-- payday predicate over the implementation's own values; `prev` = last (months, len) with months > 0 -/
+def paydayPred (now : Int) : List (Int × LenRes × Int × Int) → Option (Int × Int) → Option String
+  | [], _ => none
+  | (m, l, day, sec) :: rest, prev =>
+    match l with
+    | .panic => if m < 0 then paydayPred now rest prev else some (predfail "C20_payday" s!"panic months={m}")
+    | .ok len =>
+      if m < 0 then some (predfail "C20_payday" s!"negative-months-accepted months={m}")
+      else if m == 0 then
+        if len != 0 then some (predfail "C20_payday" "zero-months-nonzero") else paydayPred now rest prev
+      else if !(day == BeginningOfMonth || day == MidMonth) || sec != PaymentHour * 3600 then
+        some (predfail "C20_payday" s!"not-payday months={m} day={day} sec={sec}")
+      else if len ≤ 0 then some (predfail "C20_payday" s!"not-after-now months={m} len={len}")
+      else match prev with
+        | some (pm, pl) =>
+          if (pm ≤ m && pl > len) || (pm ≥ m && pl < len) || (pm < m && pl ≥ len) || (pm > m && pl ≤ len) then
+            some (predfail "C20_payday" s!"not-monotone months={pm},{m} len={pl},{len}")
+          else paydayPred now rest (some (m, len))
+        | none => paydayPred now rest (some (m, len))
+
+def handleCal : Handler
+  | [now, y, m, d, hour, months, lens, endDays, endSecs] =>
+    match int? now, int? y, int? m, int? d, int? hour, ints? months, (strs lens).mapM lenRes?,
+          ints? endDays, ints? endSecs with
+    | some now, some y, some m, some d, some hour, some months, some lens, some endDays, some endSecs =>
+      if months.length != lens.length || months.length != endDays.length || months.length != endSecs.length then
+        badInput "lengths"
+      else
+      -- (1) model vs Go's time package and GetPeriodLength
+      let c := civilFromDays (now / 86400)
+      let cmp0 := allOk [expectEq "civil" s!"{c.y}-{c.m}-{c.d}" s!"{y}-{m}-{d}",
+                         expectEq "hour" (toString (now % 86400 / 3600)) (toString hour)]
+      let rows := zip4 months lens endDays endSecs
+      let cmp := allOk (rows.map fun (mo, l, day, sec) =>
+        let ml := getPeriodLength now mo
+        if ml != l then mismatch s!"len months={mo}" (showLenRes ml) (showLenRes l)
+        else match l with
+          | .ok len =>
+            let e := now + len
+            allOk [expectEq s!"end-day months={mo}" (toString (civilFromDays (e / 86400)).d) (toString day),
+                   expectEq s!"end-sec months={mo}" (toString (e % 86400)) (toString sec)]
+          | .panic => "ok")
+      -- (2) the payday predicate on Go's own outputs
+      verdict (allOk [cmp0, cmp]) <|
+      match paydayPred now rows none with
+      | some r => r
+      | none => "ok"
+    | _, _, _, _, _, _, _, _, _ => badInput "parse"
+  | _ => badInput "arity"
+
 /-- handlers of property C20: (command name, handler) -/
-def handlers : List (String × Handler) := []
+def handlers : List (String × Handler) :=
+  [("c20.cal", handleCal), ("c20.sched", handleSched), ("c20.send", handleSend)]
 end Drv.C20
